@@ -118,6 +118,13 @@ type Enc struct {
 	inlineCount map[string]int
 	curCallees  []*ssa.Function // callee(s) of the call whose effects are being havocked
 	dtHdr       []string        // datatype declarations (always emitted before everything else)
+	lets        map[string]*letFn
+}
+
+type letFn struct {
+	sym      string
+	argSorts []string
+	ret      string
 }
 
 func newEnc(w *World, cs *Contracts, mods *ModAnalysis) *Enc {
@@ -904,4 +911,39 @@ func sortedKeys[V any](m map[string]V) []string {
 	}
 	sort.Strings(ks)
 	return ks
+}
+
+// realMul: multiplication of two symbolic reals is an uninterpreted function with commutativity
+// and sign axioms (predictable, E-matching friendly); a literal factor keeps linear arithmetic.
+func (e *Enc) realMul(a, b string) string {
+	if isNumLit(a) || isNumLit(b) {
+		return "(* " + a + " " + b + ")"
+	}
+	e.hdrOnce("rmul", `(declare-fun rmul (Real Real) Real)
+(assert (forall ((a Real) (b Real)) (! (= (rmul a b) (rmul b a)) :pattern ((rmul a b)))))
+(assert (forall ((a Real) (b Real)) (! (=> (or (= a 0.0) (= b 0.0)) (= (rmul a b) 0.0)) :pattern ((rmul a b)))))`)
+	if e.topContract != nil && e.topContract.RmulSigns {
+		e.hdrOnce("rmul-signs", `(assert (forall ((a Real) (b Real)) (! (and (=> (and (>= a 0.0) (>= b 0.0)) (>= (rmul a b) 0.0)) (=> (and (<= a 0.0) (<= b 0.0)) (>= (rmul a b) 0.0)) (=> (and (>= a 0.0) (<= b 0.0)) (<= (rmul a b) 0.0)) (=> (= a b) (>= (rmul a b) 0.0))) :pattern ((rmul a b)))))`)
+	}
+	e.note("multiplication of two symbolic float64 values is an uninterpreted commutative function with sign axioms (no other nonlinear facts are used)")
+	return "(rmul " + a + " " + b + ")"
+}
+
+func isNumLit(t string) bool {
+	t = strings.TrimSpace(t)
+	if strings.HasPrefix(t, "(- ") && strings.HasSuffix(t, ")") {
+		t = strings.TrimSuffix(strings.TrimPrefix(t, "(- "), ")")
+	}
+	if strings.HasPrefix(t, "(/ ") {
+		return true
+	}
+	if t == "" {
+		return false
+	}
+	for _, r := range t {
+		if !(r >= '0' && r <= '9' || r == '.') {
+			return false
+		}
+	}
+	return true
 }
